@@ -2573,6 +2573,11 @@ M('C07', 'attrs-truthiness-compared', DE, "            if getattr(key, attr) != 
 M('C07', 'call-check-only-with-identity', DE, "                self.check_attributes(key)\n", "                if kwargs.get('user') is not None:\n                    self.check_attributes(key)\n", 'C07.5')
 M('C07', 'call-check-only-when-subkey-selected', DE, "                self.check_attributes(key)\n", "                if _key is not key:\n                    self.check_attributes(key)\n", 'C07.5')
 M('C07', 'call-unguarded-fast-path', DE, "    def __call__(self, action):\n", "    def __call__(self, action):\n        if not self.conditions:\n            return action\n\n", 'C07.5')
+# --- wave 5: export order produced by a generator helper (canon fuses the loop over it)
+_W5_EXP = "        _bytes = bytearray()\n        # us\n        _bytes += self._key.__bytearray__()\n        # our signatures; ignore embedded signatures\n        for sig in iter(s for s in self._signatures if not s.embedded and s.exportable):\n            _bytes += sig.__bytearray__()\n        # one or more User IDs, followed by their signatures\n        for uid in self._uids:\n            _bytes += uid._uid.__bytearray__()\n            for s in [s for s in uid._signatures if s.exportable]:\n                _bytes += s.__bytearray__()\n        # subkeys\n        for sk in self._children.values():\n            _bytes += sk.__bytearray__()\n\n        return _bytes\n"
+_W5_GEN = "        _bytes = bytearray()\n        for component in self._export_sequence():\n            _bytes += component.__bytearray__()\n        return _bytes\n\n    def _export_sequence(self):\n        yield self._key\n        for sig in self._signatures:\n            if not sig.embedded and sig.exportable:\n                yield sig\n        for uid in self._uids:\n            yield uid._uid\n            yield from [s for s in uid._signatures if s.exportable]\n        for subkey in self._children.values():\n            yield subkey\n"
+T('C07', 'twin-export-generator-helper', PGP, _W5_EXP, _W5_GEN)
+M('C07', 'export-generator-adds-keymaterial', PGP, _W5_EXP, _W5_GEN.replace("        yield self._key\n", "        yield self._key\n        yield self._key.keymaterial\n"), 'C07.6')
 # --- wave 3: width recomputed on copy, opaque / wholesale copies into the public packet (C07.7 incl. the shared serialised-attribute rule)
 _W3_ECP = "        pk = self.__class__()\n        pk.bytelen = self.bytelen\n        pk.format = self.format\n        pk.x = copy.copy(self.x)\n        pk.y = copy.copy(self.y)"
 M('C07', 'ecpoint-copy-width-recomputed', FL, _W3_ECP, "        pk = self.__class__()\n        pk.bytelen = (max(self.x.bit_length(), self.y.bit_length()) + 7) // 8\n        pk.format = self.format\n        pk.x = copy.copy(self.x)\n        pk.y = copy.copy(self.y)", 'C07.7')
@@ -2715,6 +2720,21 @@ M('C16', 'lt-by-type', PGP, "    def __lt__(self, other):\n        return self.c
 T('C16', 'twin-insort-insert', TY, "        i = bisect.bisect_left(self, item)\n        self.rotate(- i)\n        self.appendleft(item)\n        self.rotate(i)", "        position = bisect.bisect_left(self, item)\n        self.insert(position, item)")
 M('C16', 'insort-appends', TY, "        i = bisect.bisect_left(self, item)\n        self.rotate(- i)\n        self.appendleft(item)\n        self.rotate(i)", "        self.append(item)", 'C16.5')
 M('C16', 'insort-rotate-back-missing', TY, "        self.appendleft(item)\n        self.rotate(i)", "        self.appendleft(item)", 'C16.5')
+# --- wave 5: context-manager helper around the wrapper body (canon inlines it), yield from, filtered delegation candidates
+_W5_WRAP = "            if key._key is None:\n                raise PGPError(\"No key!\")\n\n            # if a key is in the process of being created, it needs to be allowed to certify its own user id\n            if len(key._uids) == 0 and key.is_primary and action is not key.certify.__wrapped__:\n                raise PGPError(\"Key is not complete - please add a User ID!\")\n\n            with self.usage(key, kwargs.get('user', None)) as _key:\n                self.check_attributes(key)\n\n                # do the thing\n                return action(_key, *args, **kwargs)\n"
+_W5_CALLW = "            with self._component_for(action, key, kwargs.get('user', None)) as _key:\n                return action(_key, *args, **kwargs)\n"
+_W5_HELP = "    @contextlib.contextmanager\n    def _component_for(self, action, key, user):\n        if key._key is None:\n            raise PGPError(\"No key!\")\n\n        if len(key._uids) == 0 and key.is_primary and action is not key.certify.__wrapped__:\n            raise PGPError(\"Key is not complete - please add a User ID!\")\n\n        with self.usage(key, user) as _key:\n            self.check_attributes(key)\n            yield _key\n\n    def __call__(self, action):\n"
+for P in ('C16', 'C07'):
+    T(P, 'twin-call-context-helper', DE, _W5_WRAP, _W5_CALLW, more=[(DE, "    def __call__(self, action):\n", _W5_HELP)])
+M('C16', 'context-helper-yields-before-check', DE, _W5_WRAP, _W5_CALLW, 'C16.2', more=[(DE, "    def __call__(self, action):\n", _W5_HELP.replace("            self.check_attributes(key)\n            yield _key\n", "            yield _key\n            self.check_attributes(key)\n"))])
+M('C07', 'context-helper-drops-check', DE, _W5_WRAP, _W5_CALLW, 'C07.5', more=[(DE, "    def __call__(self, action):\n", _W5_HELP.replace("            self.check_attributes(key)\n", ""))])
+M('C16', 'context-helper-no-key-refusal-lost', DE, _W5_WRAP, _W5_CALLW, 'C16.2', more=[(DE, "    def __call__(self, action):\n", _W5_HELP.replace("        if key._key is None:\n            raise PGPError(\"No key!\")\n\n", ""))])
+M('C16', 'context-helper-yields-addressed-key', DE, _W5_WRAP, _W5_CALLW, 'C16.2', more=[(DE, "    def __call__(self, action):\n", _W5_HELP.replace("            yield _key\n", "            yield key\n"))])
+T('C16', 'twin-preiter-yield-from', DE, "            for item in iterable:\n                yield item\n", "            yield from iterable\n")
+_W5_DEL = "            sks = set(self.subkeys)\n            mis = set(message.encrypters)\n            if sks & mis:\n                skid = list(sks & mis)[0]\n                return self.subkeys[skid].decrypt(message)\n"
+M('C16', 'delegate-only-encryption-subkeys', PGP, _W5_DEL, "            sks = set(kid for kid, sk in self.subkeys.items() if {KeyFlags.EncryptCommunications, KeyFlags.EncryptStorage} & set(sk._get_key_flags()))\n            mis = set(message.encrypters)\n            if sks & mis:\n                skid = list(sks & mis)[0]\n                return self.subkeys[skid].decrypt(message)\n", 'C16.6')
+M('C16', 'delegate-loop-flag-gated', PGP, _W5_DEL, "            for skid, sk in self.subkeys.items():\n                if skid in message.encrypters and KeyFlags.EncryptCommunications in sk._get_key_flags():\n                    return sk.decrypt(message)\n", 'C16.6')
+M('C16', 'delegate-loop-unexpired-only', PGP, _W5_DEL, "            for skid in self.subkeys:\n                if skid in message.encrypters and not self.subkeys[skid].is_expired:\n                    return self.subkeys[skid].decrypt(message)\n", 'C16.6')
 # --- insort evaluated on concrete collections: fast paths that are identities stay silent, wrong ones are reported
 _C16_INS = "        i = bisect.bisect_left(self, item)\n        self.rotate(- i)\n        self.appendleft(item)\n        self.rotate(i)"
 _C16_FAST = "        i = bisect.bisect_left(self, item)\n        if self.maxlen is None:\n            if i == 0:\n                self.appendleft(item)\n                return\n\n            if i == len(self):\n                self.append(item)\n                return\n\n        self.rotate(- i)\n        self.appendleft(item)\n        self.rotate(i)"
